@@ -63,7 +63,7 @@ def convert_script(s, rng):
                 chain.append({"op": "to_expiry", "htlc": 0, "who": [w for w in who if w != 2], "agent_pays": [], "off": 0})
         elif o["op"] == "preimage":
             chain.append({"op": "preimage", "pay": pay_of[o["hash"]]})
-            if rng.random() < 0.5:
+            if rng.random() < 0.15:
                 # the tip is replaced right after the claim was made; is the claim still pursued?
                 chain.append({"op": "reorg", "depth": rng.randrange(1, 3), "add": rng.randrange(1, 3)})
                 chain += [{"op": "rebroadcast", "node": 0}, {"op": "rebroadcast", "node": 1}]
@@ -533,6 +533,9 @@ def run_check(pid, tier, seed, assumptions):
     # ---- the real code
     nrand = 6000 if thorough else 330
     batches = [("tlc", ["--scripts", spath]), ("random", ["--random", nrand, "--profile", prof])]
+    if pid == "C07":
+        # late preimages followed by a reorganisation of the tip and rebroadcast requests
+        batches.append(("reorg", ["--random", 500 if thorough else 40, "--profile", "c07r"]))
     nviol, total_events, total_runs, panics, known_hits = 0, 0, 0, 0, {}
     stats, good_traces, bad_runs = {}, [], {}
     for bi, (bname, args) in enumerate(batches):
@@ -559,6 +562,7 @@ def run_check(pid, tier, seed, assumptions):
                 sj = json.loads(ln)
                 scripts_of[sj["run"]] = sj
         bad_runs[bname] = {fl["run"] for fl in fails}
+        cap_hit = len(fails) >= (80 if thorough else 20)
         for fl in fails:
             key = classify(fl)
             vlib.log("[reject] batch %s run %s at event %d (%s, %s)%s" % (bname, fl["run"], fl["pos_in_run"], fl["rec"].get("ev"),
@@ -572,6 +576,9 @@ def run_check(pid, tier, seed, assumptions):
                     "how_to_replay": "put `script` on one line of s.ndjson; harness/target/debug/onchain --scripts s.ndjson --out t.ndjson ; "
                                      "tools/tv.sh OnChainTrace t.ndjson"}, key=key):
                 nviol += 1
+        if cap_hit and nviol == 0:
+            raise vlib.ToolError("batch %s: %d runs were rejected, all of them known findings; the runs after the last one "
+                                 "were not validated" % (bname, len(fails)))
 
     # ---- vacuity of the drivers
     allst = {k: sum(stats[b][k] for b in stats) for k in ("runs", "second_stage_confirmed", "runs_with_second_stage", "claims",
